@@ -238,6 +238,34 @@ CHECKS['C15'] = dict(category='proof', design_ref='DESIGN.md §7 C15, Appendix D
           "the sum of the gains as destination (in) and of the losses as source plus discarded amounts (out), and "
           "inflow - outflow = remaining(end) - remaining(start); for 5 program shapes x stages x objects x units."))
 
+CHECKS['C18'] = dict(category='proof', design_ref='DESIGN.md §7 C18',
+    technique='contract-based deductive verification: configuration-parametric contracts — the obligations of the configuration-dependent functions are re-discharged under every documented storage-unit setting (the configuration strings are concrete per case, everything else symbolic)',
+    note=COMMON_NOTE + (" Quick: the 19 one-at-a-time settings of moles_storage_unit / volume_storage_unit (10 SI "
+                        "prefixes each; heavier solution cases only for mol, mmol, L); thorough: all 100 pairs. The "
+                        "lifting from per-operation parametricity to whole scripts is a paper lemma (induction over "
+                        "the script: contracts are alpha_cfg(result) = F(alpha_cfg(args)) with F free of cfg). Internal "
+                        "precision effects ('within rounding') are outside A2. Default densities are symbolic in C06."),
+    text=("Under each setting: convert_to_storage / convert_from_storage and their round trip for every unit; "
+          "Container._transfer (uniform, size, cap, refuse/accept), _add, fill_to, remove, __init__, get_volume, "
+          "get_concentration, dilute, create_solution, create_solution_from, get_substance_used and container flows "
+          "satisfy the same user-unit contracts as under the shipped configuration — all phrased over amounts in base "
+          "units and volumes in litres, so accept/refuse decisions and reported values cannot depend on the storage "
+          "units."))
+CHECKS['C19'] = dict(category='proof', design_ref='DESIGN.md §7 C19',
+    technique='contract-based deductive verification: the two rescaling helpers proved against `same physical amount`; instruction lines kept as structured text terms (numbers as typed holes) and compared with the true amounts symbolically',
+    note=COMMON_NOTE + (" A3 (f-string of a number prints repr, float(repr(x)) == x). In the instruction-line runs the "
+                        "helpers are used through the contract proved in part A (one fork per possible prefix). "
+                        "Mixtures are explicit key sets of 1-2 substances. Out of reach: the literal characters of the "
+                        "text, create_solution's per-substance list, collapse()'s well-range wording for plate fill_to, "
+                        "HTML/pandas output."),
+    text=("Unit.get_human_readable_unit for every unit spelling and convert_from_storage_to_standard_format for "
+          "solids, liquids, enzymes and containers return a value and unit denoting exactly the physical amount "
+          "handed in (symbolic value; all rescaling paths). The line appended by Container.__init__, _transfer "
+          "(liquid / solid / mixed sources; volume, mass and mole requests), fill_to, dilute, create_solution_from "
+          "and the instruction of baked dilute / fill_to steps print, before display rounding, exactly the amount "
+          "added / transferred / filled (relative to the current state for recipe steps), in a unit of the right base, "
+          "rounded to the display precision configured for that unit."))
+
 NOT_YET = "check not built yet in this round (under construction; not claimed)"
 NOT_APPLICABLE = {}
 
